@@ -2449,8 +2449,13 @@ func (s *Server) serveConnCounted(c net.Conn, countConcurrency bool) error {
 		ctx.Request.secureErrorLogMessage = s.SecureErrorLogMessage
 		ctx.Response.secureErrorLogMessage = s.SecureErrorLogMessage
 
+		if err == nil && idleConnTime.Swap(0) == idleConnClosing {
+			// Shutdown claimed this idle connection and is closing it:
+			// don't start serving another request on it.
+			err = io.EOF
+		}
+
 		if err == nil {
-			idleConnTime.Store(0)
 			s.setState(c, StateActive)
 
 			if s.ReadTimeout > 0 {
@@ -3171,12 +3176,19 @@ func (s *Server) writeErrorResponse(bw *bufio.Writer, ctx *RequestCtx, serverNam
 
 var idleConnTimePool sync.Pool
 
+// idleConnClosing is stored in a connection's idle time by closeIdleConns
+// when it decides to close the connection.
+const idleConnClosing = -1
+
 func (s *Server) closeIdleConns() {
 	s.idleConnsMu.Lock()
 	now := time.Now().Unix()
 	for c, ict := range s.idleConns {
 		t := ict.Load()
-		if t != 0 && now-t >= 0 {
+		// Claim the connection before closing it, so that a connection which
+		// turns active at this very moment is either left alone or never
+		// starts handling the request it just received.
+		if t != 0 && now-t >= 0 && ict.CompareAndSwap(t, idleConnClosing) {
 			_ = c.Close()
 			// Don't recycle ict: the connection's own goroutine still holds it
 			// and stores into it, so only that goroutine may return it.
